@@ -18,10 +18,13 @@ enum Ty {
     Qubit,
     Gate,
     HwQubit,
+    /// a standard-library gate with its parameter and qubit counts
+    Std(usize, usize),
 }
 
 fn real_type(t: Ty) -> Type {
     match t {
+        Ty::Std(a, b) => Type::Gate(a, b),
         Ty::Int => Type::Int(Some(32), IsConst::False),
         Ty::Qubit => Type::Qubit,
         Ty::Gate => Type::Gate(1, 2),
@@ -37,10 +40,14 @@ enum Op {
     Bind(String, Ty),
     Lookup(String),
     LookupOrBind(String, Ty),
+    /// bind the standard library in the current scope (what `include "stdgates.inc";` does)
+    StdLib,
 }
 
 fn op_text(op: &Op) -> String {
     match op {
+        Op::StdLib => "STD".into(),
+        Op::Bind(n, Ty::Std(..)) | Op::LookupOrBind(n, Ty::Std(..)) => format!("bg:{n}"),
         Op::EnterLocal => "L".into(),
         Op::EnterSub => "S".into(),
         Op::Exit => "X".into(),
@@ -65,6 +72,7 @@ fn parse_op(s: &str) -> Option<Op> {
         _ => None,
     };
     Some(match s {
+        "STD" => Op::StdLib,
         "L" => Op::EnterLocal,
         "S" => Op::EnterSub,
         "X" => Op::Exit,
@@ -166,9 +174,26 @@ impl Run {
             Op::Bind(..) => "bind",
             Op::Lookup(..) => "lookup",
             Op::LookupOrBind(..) => "lookup_or_bind",
+            Op::StdLib => "standard-library",
         };
         let fail = |clause: &str, d: String| Err((format!("{opname}/{clause}"), d));
         match op {
+            Op::StdLib => {
+                // one binding attempt per library gate, in the library's order: it fails iff the
+                // current scope already has the name, and the failures are what is returned
+                let collided = self.table.verif_standard_library_gates();
+                let mut expect = Vec::new();
+                for (name, np, nq) in crate::model_resolve::STDGATES {
+                    if self.model.scopes.last().unwrap().contains_key(*name) {
+                        expect.push(name.to_string());
+                    } else {
+                        self.model.bind_raw(name, Some(Ty::Std(*np, *nq)));
+                    }
+                }
+                if collided != expect {
+                    return fail("collisions-reported", format!("standard_library_gates() reports {collided:?}, the current scope already had {expect:?}"));
+                }
+            }
             Op::EnterLocal => {
                 self.table.verif_enter_scope(ScopeType::Local);
                 self.model.scopes.push(HashMap::new());
@@ -271,7 +296,7 @@ impl Run {
             return fail("hardware-qubits-listing", format!("{hw:?} vs model {hw_model:?}"));
         }
         let gl: Vec<(String, usize)> = self.table.gates().map(|(n, id, _, _)| (n.to_string(), self.table.verif_symbol_ordinal(&id))).collect();
-        let gl_model: Vec<(String, usize)> = self.model.symbols.iter().enumerate().filter(|(_, s)| s.1 == Some(Ty::Gate)).map(|(i, s)| (s.0.clone(), i)).collect();
+        let gl_model: Vec<(String, usize)> = self.model.symbols.iter().enumerate().filter(|(_, s)| matches!(s.1, Some(Ty::Gate | Ty::Std(..))) && s.0 != "U").map(|(i, s)| (s.0.clone(), i)).collect();
         if gl != gl_model {
             return fail("gates-listing", format!("{gl:?} vs model {gl_model:?}"));
         }
@@ -298,8 +323,13 @@ impl Run {
             .symbols
             .iter()
             .enumerate()
-            .filter(|(_, (_, t))| *t == Some(Ty::Gate))
-            .map(|(i, (n, _))| (n.clone(), i, 1usize, 2usize))
+            // (the listing documents that it leaves out every symbol named `U`)
+            .filter(|(_, (n, _))| n != "U")
+            .filter_map(|(i, (n, t))| match t {
+                Some(Ty::Gate) => Some((n.clone(), i, 1usize, 2usize)),
+                Some(Ty::Std(a, b)) => Some((n.clone(), i, *a, *b)),
+                _ => None,
+            })
             .collect();
         model_gates.sort();
         if real_gates != model_gates {
@@ -365,7 +395,7 @@ fn dfs(run: &Run, hist: &mut Vec<Op>, maxlen: usize, alphabet: &[Op], obs: &mut 
 
 fn check_start(obs: &mut Obs) -> Option<Run> {
     let r = guard(|| {
-        let run = Run::new(&["a", "b", "c", "d", "$0", "$1"]);
+        let run = Run::new(&["a", "b", "c", "d", "$0", "$1", "euler", "x", "y", "id", "u1", "u3", "cx", "CX", "cphase", "cu", "ccx", "cswap"]);
         let c = run.compare("new");
         (run, c)
     });
@@ -444,6 +474,9 @@ fn run_history(ops: &[Op], obs: &mut Obs) {
         fingerprint_state(&run, obs);
     }
     let _ = classes.3;
+    if ops.contains(&Op::StdLib) {
+        obs.class("standard-library-bound");
+    }
     if classes.0 {
         obs.class("shadowing");
     }
@@ -470,11 +503,17 @@ fn random_history(r: &mut Rng) -> Vec<Op> {
     for _ in 0..n {
         let mut name = r.pick(&names).to_string();
         let mut ty = *r.pick(&[Ty::Int, Ty::Int, Ty::Qubit, Ty::Gate]);
+        // names that already mean something: the built-in constants and `U` (bound in the global scope
+        // of a fresh table) and names of the standard library
+        if r.chance(1, 6) {
+            name = r.pick(&["pi", "τ", "euler", "U", "x", "y", "cx", "cswap", "u3"]).to_string();
+        }
         if r.chance(1, 10) {
             name = r.pick(&["$0", "$1"]).to_string();
             ty = Ty::HwQubit;
         }
         let op = match r.below(12) {
+            _ if r.chance(1, 50) => Op::StdLib,
             0 => Op::EnterLocal,
             1 => Op::EnterSub,
             2 | 3 => Op::Exit,
@@ -512,6 +551,19 @@ impl Property for C19 {
                 format!("dfs:{i}:{maxlen}")
             }
         })];
+        // the same exhaustive exploration with a built-in constant's name in place of `b` (one level less)
+        let maxlen_b = tier.pick(5u64, 7u64);
+        v.push(Stream::new("exhaustive-dfs-builtin-name", nprefix, true, move |i| format!("dfsb:{i}:{maxlen_b}")));
+        // user gates named like library gates (one or two of them, in the global or a local scope),
+        // then the library, then look-ups of every library name
+        let ng = crate::model_resolve::STDGATES.len() as u64;
+        v.push(Stream::new("standard-library-collision-table", (ng + ng * ng) * 2, true, move |i| {
+            let local = i % 2 == 1;
+            let k = i / 2;
+            let name = |j: u64| crate::model_resolve::STDGATES[j as usize].0;
+            let binds = if k < ng { format!("bg:{}", name(k)) } else { format!("bg:{} bg:{}", name((k - ng) % ng), name((k - ng) / ng)) };
+            format!("h:{}{binds} STD l:x X STD", if local { "L " } else { "" })
+        }));
         let nrand = tier.pick(20_000, 400_000);
         v.push(Stream::new("random-histories", nrand, false, move |i| {
             let mut r = Rng::new(mix(&[seed, 0x19, i]));
@@ -520,7 +572,20 @@ impl Property for C19 {
         v
     }
     fn check(&self, input: &str, obs: &mut Obs) {
-        let alphabet = alphabet9();
+        let mut alphabet = alphabet9();
+        let mut input = input;
+        let owned;
+        if let Some(rest) = input.strip_prefix("dfsb:") {
+            // same block structure as dfs:, over {a, pi}
+            for op in alphabet.iter_mut() {
+                match op {
+                    Op::Bind(n, _) | Op::Lookup(n) | Op::LookupOrBind(n, _) if n == "b" => *n = "pi".to_string(),
+                    _ => {}
+                }
+            }
+            owned = format!("dfs:{rest}");
+            input = &owned;
+        }
         if let Some(rest) = input.strip_prefix("h:") {
             // detail strings may carry " :: ..." after the history
             let rest = rest.split(" :: ").next().unwrap_or("").split(" (step").next().unwrap_or("");
@@ -586,6 +651,6 @@ impl Property for C19 {
         obs.inconclusive("unrecognised input spec");
     }
     fn mandatory_classes(&self, _tier: Tier) -> Vec<&'static str> {
-        vec!["shadowing", "duplicate-in-scope", "exit-removes-bindings"]
+        vec!["shadowing", "duplicate-in-scope", "exit-removes-bindings", "standard-library-bound"]
     }
 }
